@@ -17,7 +17,7 @@ RULE = ("one flow rule (WarmUp+Reject 72%, MemoryAdaptive+Reject 22%, invalid 6%
         "ControlBehavior Throttling (MemoryAdaptive 60% / WarmUp 40%, queueing limits 0..2000 ms, probes with batches around both thresholds, "
         "reloads incl. Reject<->Throttling); 0.4% are soak cases (goroutines overwriting the memory gauge while requests run); thresholds from "
         "{0, small integers, fractions, cold-factor boundaries +-, medium, large}, periods 1..60 s, cold factors {0(default),2..10,1(invalid)}, "
-        "StatIntervalInMs from the reusable views {0,500,1000,2000,5000,10000} and the non-reusable {700,1500,3000,20000} (the rule then owns a "
+        "StatIntervalInMs from the reusable views {0,500,1000,2000,5000,10000} and the non-reusable {250,700,1500,3000,20000,700000} plus non-round legal values {1,7,499,501,997,1250,1300,1501,1600,1750,2750,3001,9973,9999,10001,12345} (the rule then owns a "
         "BucketLeapArray fed by the standalone stat slot); in 60% of the cases a second, generous Direct+Reject rule is listed before (40%) or after (20%) "
         "the adaptive rule; demand = phases of saturating per-second bursts, "
         "sub-second streams, steady single-token demand, idle gaps (short / longer than the refill time), optional traffic before the "
@@ -48,7 +48,8 @@ def pick_T(rng, cf):
     return float(rng.choice([500, 1000, 2500]))
 
 
-IVS = [0, 0, 0, 0, 0, 0, 1000, 500, 2000, 5000, 10000, 1500, 3000, 20000, 700, 250, 700000]      # the last six cannot reuse the resource's statistic
+ODD_IVS = [1, 7, 250, 499, 501, 700, 997, 1250, 1300, 1501, 1600, 1750, 2750, 3001, 9973, 9999, 10001, 12345]   # legal, not a multiple of the 500 ms bucket / beyond the 10 s array: one-bucket statistic of the rule's own
+IVS = [0, 0, 0, 0, 0, 0, 0, 0, 1000, 500, 2000, 5000, 10000, 1500, 3000, 20000, 700, 250, 700000] + ODD_IVS[::3] + ODD_IVS[1::3] + ODD_IVS[2::3]
 
 
 def reload_wu(rng, ops, cur):
@@ -72,7 +73,7 @@ def reload_wu(rng, ops, cur):
     elif k == "cf":
         new["cf"] = rng.choice([x for x in [2, 3, 4, 5, 7, 10] if x != cur["cf"] and not (cur["cf"] <= 1 and x == 3)])
     elif k == "iv":
-        new["iv"] = rng.choice([x for x in [0, 500, 1000, 2000, 5000, 10000, 1500, 3000, 20000] if x != cur["iv"]])
+        new["iv"] = rng.choice([x for x in [0, 500, 1000, 2000, 5000, 10000, 1500, 3000, 20000] + ODD_IVS if x != cur["iv"]])
     if k == "invalid":
         ops.append(rng.choice([f"load wu {fb(cur['T'])} 0 {cur['cf']} {cur['iv']}", f"load wu {fb(cur['T'])} {cur['p']} 1 {cur['iv']}"]))
         # the resource is now unprotected; put the rule back a little later
@@ -113,7 +114,7 @@ def reload_ma(rng, ops, cur):
         c = [x for x in [cur["highM"] * 2, cur["highM"] + 1, cur["highM"] + 1000, cur["highM"] - 1, (cur["lowM"] + cur["highM"]) // 2 + 1] if x != cur["highM"] and x > cur["lowM"]]
         new["highM"] = rng.choice(c)
     elif k == "iv":
-        new["iv"] = rng.choice([x for x in [0, 500, 1000, 2000, 5000, 10000, 1500, 3000, 20000] if x != cur["iv"]])
+        new["iv"] = rng.choice([x for x in [0, 500, 1000, 2000, 5000, 10000, 1500, 3000, 20000] + ODD_IVS if x != cur["iv"]])
     elif k == "invalid":
         ops.append(rng.choice([f"load ma {cur['lowT']} {cur['lowT']} {cur['lowM']} {cur['highM']} {cur['iv']}",
                                f"load ma {cur['lowT']} {cur['highT']} {cur['highM']} {cur['highM']} {cur['iv']}"]))
@@ -286,7 +287,7 @@ def throttle_case(rng, cid, t0):
     tags = ["throttle"]
     companion(rng, ops, tags)
     maxq = rng.choice([0, 0, 100, 300, 500, 1000, 2000])
-    iv = rng.choice([0, 0, 0, 1000, 500, 2000, 1500, 3000])
+    iv = rng.choice([0, 0, 0, 1000, 500, 2000, 1500, 3000, 1750, 1300, 2750, 997, 250])
     if rng.random() < 0.6:
         lowT = rng.choice([2, 5, 10, 50, 100, rng.randint(2, 300)])
         highT = rng.choice([1, max(1, lowT // 10), max(1, lowT // 2), lowT - 1])
